@@ -8,7 +8,7 @@ Is(k) == l <= Len(Rec) /\ E.e = k /\ l' = l + 1
 TInit == InitWith([x |-> 0]) /\ ev = [e |-> "init"] /\ l = 1
 TReset == Is("reset") /\ Reset(E.cfg)
 Cp == "cp" \in DOMAIN E /\ E.cp = 1
-TCreate == Is("create") /\ (IF Cp THEN CreateP(E.c, E.key) ELSE (Create(E.c, E.key) \/ CreateDeferred(E.c, E.key))) /\ Matches(ev', E)
+TCreate == Is("create") /\ (IF Cp THEN (CreateP(E.c, E.key) \/ CreateDeferred(E.c, E.key)) ELSE (Create(E.c, E.key) \/ CreateDeferred(E.c, E.key))) /\ Matches(ev', E)
 TPoll == Is("poll") /\ PollAny(E.c) /\ Matches(ev', E)
 TComplete == Is("complete") /\ Complete(E.c, E.out) /\ Matches(ev', E)
 TDrop == Is("drop") /\ Drop(E.c) /\ Matches(ev', E)
